@@ -92,6 +92,16 @@ def gen_query(rng):
         return f"select {', '.join(aggs)} from a{where}", None, {"agg"}
     if k < 0.92:
         return f"select distinct {rng.choice(['x', 'x, y', 'y, s'])} from a", None, {"distinct"}
+    if rng.random() < 0.3:
+        # ORDER BY over a join one of whose inputs arrives ordered on the join key: the join does not pass that order on
+        # (an outer hash join appends its unmatched rows at the end)
+        jt = rng.choice(["left join", "left join", "full join", "join", "right join"])
+        d = rng.random() < 0.3
+        side = rng.random() < 0.7
+        q = (f"select a.x, t.x, t.z from a {jt} (select x, z from b order by x{' desc' if d else ''}) t on a.x = t.x order by t.x{' desc' if d else ''}" if side else
+             f"select t.x, t.y, b.x from (select x, y from a order by x{' desc' if d else ''}) t {jt} b on t.x = b.x order by t.x{' desc' if d else ''}")
+        tags = {"order", "join", "ordered-input"} | ({"right"} if jt == "right join" else set()) | ({"full"} if jt == "full join" else set())
+        return q, [(1 if side else 0, d)], tags
     keys = rng.sample(["x", "y", "s"], rng.choice([1, 2]))
     descs = [rng.random() < 0.4 for _ in keys]
     order = ", ".join(f"{c}{' desc' if d else ''}" for c, d in zip(keys, descs))
